@@ -6,7 +6,7 @@ LEDGER_TB = [
     "translated mathutil.AddUint64 / UxOut.CoinHours (Gen/Mathutil.v, Gen/CoinHours.v, regenerated from /repo on every run; specification lemma AddUint64_spec from C31)",
     "hashes and signatures are data: ids assigned injectively by the harness (one table per history), signature-validity bits computed by the implementation's cipher package; theorem hypothesis ids_consistent (SHA-256 collision freedom + the id table) evaluated on every history (premises_ok)",
     "harness: block/transaction generators, error-to-enum mapping (by error type / fixed message), Coq-term printer with sharing of identical terms, state digest; boltdb atomic Update is modelled as atomicity and checked by digest equality after rejected blocks",
-    "not modelled: arbitrating (publisher) mode of processTransactions, unconfirmed pool and history updates of executeSignedBlockUnsafe (covered only through the digest / CheckDatabase verdict)",
+    "both node configurations are modelled and exercised: follower (non-arbitrating) and arbitrating block publisher (processTransactions sorts by fee/hash using the transaction size and the first 8 hash bytes supplied by the harness, drops invalid / conflicting transactions; the body the node stored is re-read and compared with the model's kept list); not modelled: unconfirmed pool and history db updates of executeSignedBlockUnsafe (covered only through the digest / CheckDatabase verdict; a rejection by HistoryDB.ParseBlock is taken as a no-op)",
 ]
 LEDGER_ASSUME = [
     "amounts are 64-bit values (ops_in_range / genesis_wf: Go's uint64), the genesis block has distinct output ids and no inputs",
